@@ -16,6 +16,11 @@ def ttOfName : String → TT
   | "LoopBreak" => .loopBreak | "LoopEnd" => .loopEnd | "HarmonyBegin" => .harmonyBegin | "HarmonyEnd" => .harmonyEnd
   | "Div" => .div | "Sub" => .sub | "PlayFromHere" => .playFromHere | "Comment" => .comment
   | "OctaveRandom" => .octaveRandom | "QLenRandom" => .qlenRandom | "VelocityRandom" => .velocityRandom | "TimingRandom" => .timingRandom
+  | "KeyShift" => .keyShift | "TrackKey" => .trackKey | "KeyFlag" => .keyFlag | "UseKeyShift" => .useKeyShift | "TieMode" => .tieMode
+  | "SongVelocityAdd" => .songVelocityAdd | "SongQAdd" => .songQAdd | "MeasureShift" => .measureShift | "Voice" => .voice
+  | "ControlChange" => .controlChange | "PitchBend" => .pitchBend | "Tempo" => .tempo | "TimeSignature" => .timeSignature | "Time" => .time
+  | "PlayFrom" => .playFrom
+  | "TimeBase" => .timeBase
   | "Track" => .track | "Channel" => .channel | "TrackSync" => .trackSync | "Tokens" => .tokens | "ConstInt" => .constInt
   | _ => .other
 
@@ -41,16 +46,19 @@ def trkState (t : Ex2.Trk) : String :=
   s!"tp:{t.timepos},ch:{t.channel},l:{t.length},o:{t.octave},v:{t.velocity},q:{t.qlen},t:{t.timing},key:{t.trackKey}"
 
 /-- `exec <hex of token S-expressions>` → `tracks=… state=… cur=… pf=… seed=…` or `unsupported` -/
-def execOp (toksHex : String) : String :=
+def execOp (toksHex : String) (tb : Int) : String :=
   let txt := String.ofList ((unhex toksHex).map Char.ofNat)
   let toks := (parse ("(" ++ txt ++ ")")).items.map tokOfS
-  match Ex2.exec 400000 24 toks {} with
+  match Ex2.exec 400000 24 toks { tb := tb } with
   | none => "unsupported fuel"
   | some s =>
     if s.bad then "unsupported" else
     let tr := ";".intercalate (s.tracks.map (fun t => showEvents t.events))
     let st := ";".intercalate (s.tracks.map trkState)
-    s!"tracks={tr} state={st} cur={s.cur} pf={s.playFrom} seed={s.seed}"
+    let kf := "/".intercalate (s.keyFlag.map toString)
+    let sg := s!"ks:{s.keyShift},kf:{kf},uk:{if s.useKeyShift then 1 else 0},va:{s.vAdd},qa:{s.qAdd},ms:{s.measureShift},tsf:{s.timesigFrac},tsd:{s.timesigDeno},tempo:{s.tempo}"
+    let ties := ";".intercalate (s.tracks.map (fun t => s!"{t.tieMode}:{t.tieValue}:{t.bendRange}"))
+    s!"tracks={tr} state={st} cur={s.cur} pf={s.playFrom} seed={s.seed} song={sg} ties={ties}"
 
 /-- `compile <hex of program S-expression>` → the token list `Ex2.compileL` assigns to the program, in the text form of op `lex` -/
 def compileOp (progHex : String) : String :=
